@@ -102,7 +102,9 @@ CLAIMED = {
         "vertices in every model), the degree-form versions, C06_regular_is_cycle / C06_regular_is_path (pure graph theory, proved), "
         "C06_path (primitive-only path constraint: one simple path with >= 1 edge, or empty as documented), "
         "C06_path_aux_unimplemented. Frame form: the edge list / lattice graph conversion is C14_graph. Tie: program equality "
-        "(line-graph edge sets canonicalised) incl. frames; search over all edge subsets with forced-value checks of is_passed.",
+        "(line-graph edge sets canonicalised) incl. frames; beyond the sizes program equality reaches, the real Graph.line_graph() of "
+        "graphs with more than 2^16 edges is compared with the definition the model implements; search over all edge subsets with "
+        "forced-value checks of is_passed.",
         "Trusted: Lean kernel + standard axioms; Mathlib Reachable; `eval`/`evalAVC`; hand-written generator model tied by program "
         "equality; self-loops excluded (loop-free hypothesis).",
         "Lean 4 theorems (certificate layer + graph theory incl. cycle extraction) + program-equality correspondence",
